@@ -63,6 +63,13 @@ func renderLogLine(ln logLine, pos int, variant int) string {
 	case "STATUS":
 		return head + fmt.Sprintf(`apparmor="STATUS" operation="profile_load" profile="unconfined" name="%s" pid=%d comm="%s"`, prof, 2000+pos, marker)
 	case "foreign":
+		// a line of another subsystem: syslog text, a JSON object, the tail of a line cut by a log rotation
+		switch variant % 4 {
+		case 1:
+			return fmt.Sprintf(`{"MESSAGE_ID":"%d","UNIT":"cron.service","TEXT":"job %s done"}`, pos, marker)
+		case 2:
+			return fmt.Sprintf(`{ cut off by a rotation %s`, marker)
+		}
 		return fmt.Sprintf("Oct  1 12:00:%02d host kernel: usb 1-%d: new high-speed USB device %s", pos%60, pos, marker)
 	case "blank":
 		return ""
@@ -192,6 +199,15 @@ func checkC14(e *Env, r *Report) {
 			if j.fmtJ {
 				if ln.Cls == "garbled" || ln.Cls == "blank" {
 					b.WriteString(line + "\n") // a line journalctl did not produce
+				} else if (i+k)%3 == 0 {
+					// journald writes a message that is not printable UTF-8 as an array of numbers; any message may come so
+					nums := make([]int, len(line))
+					for x := 0; x < len(line); x++ {
+						nums[x] = int(line[x])
+					}
+					jb, _ := json.Marshal(map[string]any{"MESSAGE": nums, "_TRANSPORT": "audit"})
+					b.Write(jb)
+					b.WriteString("\n")
 				} else {
 					jb, _ := json.Marshal(map[string]string{"MESSAGE": line})
 					b.Write(jb)
